@@ -153,7 +153,11 @@ def install_wrappers():
       n_undo = len(eng.out_actions.undo)
       step = ["doc", tok_action(actions.get_action_repr(action)), direct, None]
       _emit(step)
-      if REC.fault:
+      # no fault sites inside formula evaluation (doc actions issued by lookupOrAddDerived while the
+      # update loop runs): the engine turns an exception there into a cell error, the bundle does
+      # not raise, and the injected error value would stay in the document
+      in_formula = bool(getattr(eng, "_in_update_loop", False))
+      if REC.fault and not in_formula:
         try:
           REC.fault("doc-entry", step)
         except BaseException:
@@ -166,7 +170,7 @@ def install_wrappers():
         raise
       # undo entries appended by the DocActions method itself come first; nested steps record their own
       step[3] = "ok"
-      if REC.fault:
+      if REC.fault and not in_formula:
         REC.fault("doc-exit", step)
   UA._do_doc_action = _do_doc_action
 
